@@ -660,7 +660,12 @@ class World:
             t_ = chain(e)
             if t_ is not None:
                 return t_
-        if isinstance(e, ast.Dict):
+        if isinstance(e, (ast.Dict, ast.DictComp)):
+            return T_DICT
+        if isinstance(e, ast.Call) and isinstance(e.func, ast.Name) and e.func.id == "dict" and self.prog.resolve_name_expr(mi, e.func) is None:
+            return T_DICT  # dict(<pairs>) / dict(a=..): a dict whatever the entries are
+        if isinstance(e, ast.BinOp) and isinstance(e.op, ast.BitOr) and all(isinstance(x, (ast.Dict, ast.DictComp)) or (isinstance(x, ast.Name) and mi.const_multi.get(x.id) == 1
+                                                                              and self.const_type(mi, x.id) == T_DICT) for x in (e.left, e.right)):
             return T_DICT
         return None
 
